@@ -1,0 +1,108 @@
+//go:build verif
+
+package vxfw
+
+import "git.sr.ht/~rockorager/vaxis"
+
+// Verification hooks for property C15 (event routing). Add-only: they expose the unexported
+// focusHandler / mouseHandler / hitTest / handleCommand / render entry points and snapshots of
+// their state. Nothing here is reachable without the `verif` build tag.
+
+// VerifHit is the exported copy of a hitResult.
+type VerifHit struct {
+	Col, Row uint16
+	W        Widget
+}
+
+// VerifSession is an App whose focus handler has been initialised exactly as App.Run does,
+// together with the mouseHandler that Run keeps in a local variable.
+type VerifSession struct {
+	App *App
+	mh  mouseHandler
+}
+
+// VerifNewSession initialises app.fh as the first statement of Run does. The mouse handler is
+// the zero value (Run sets lastFrame to the first layout: use VerifSetLastFrame).
+func VerifNewSession(app *App, root Widget) *VerifSession {
+	app.fh = focusHandler{
+		root:    root,
+		focused: root,
+		path:    []Widget{root},
+	}
+	return &VerifSession{App: app}
+}
+
+func VerifDispatchKey(s *VerifSession, ev vaxis.Event) error {
+	return s.App.fh.handleEvent(s.App, ev)
+}
+
+func VerifUpdatePath(s *VerifSession, root Surface) {
+	s.App.fh.updatePath(s.App, root)
+}
+
+func VerifMouse(s *VerifSession, ev vaxis.Mouse) error {
+	return s.mh.handleEvent(s.App, ev)
+}
+
+func VerifMouseUpdate(s *VerifSession, sf Surface) error {
+	return s.mh.update(s.App, sf)
+}
+
+// VerifMouseExit is the vaxis.FocusOut branch of Run when clear is true.
+func VerifMouseExit(s *VerifSession, clear bool) error {
+	if clear {
+		s.mh.mouse = nil
+	}
+	return s.mh.mouseExit(s.App)
+}
+
+func VerifSetLastFrame(s *VerifSession, sf Surface) {
+	s.mh.lastFrame = sf
+}
+
+func VerifRender(s *VerifSession, sf Surface) {
+	sf.render(s.App.vx.Window(), s.App.fh.focused)
+}
+
+func VerifHandleCommand(s *VerifSession, cmd Command) {
+	s.App.handleCommand(cmd)
+}
+
+func verifHits(hs []hitResult) []VerifHit {
+	out := make([]VerifHit, 0, len(hs))
+	for _, h := range hs {
+		out = append(out, VerifHit{Col: h.col, Row: h.row, W: h.w})
+	}
+	return out
+}
+
+func VerifHitTest(sf Surface, col, row uint16) []VerifHit {
+	return verifHits(hitTest(sf, []hitResult{}, col, row))
+}
+
+func VerifHits(s *VerifSession) []VerifHit {
+	return verifHits(s.mh.lastHits)
+}
+
+func VerifHasMouse(s *VerifSession) bool {
+	return s.mh.mouse != nil
+}
+
+// The following work on any *App, also one that is running under App.Run (reads are then
+// unsynchronised; callers order them after a handler call made by Run's goroutine).
+
+func VerifAppFocused(a *App) Widget {
+	return a.fh.focused
+}
+
+func VerifAppPath(a *App) []Widget {
+	return append([]Widget(nil), a.fh.path...)
+}
+
+func VerifAppFlags(a *App) (redraw, refresh, quit, consume, debug bool) {
+	return a.redraw, a.refresh, a.shouldQuit, a.consumeEvent, a.debug
+}
+
+func VerifAppClose(a *App) {
+	a.vx.Close()
+}
